@@ -263,9 +263,21 @@ func (n *node) RouteSendEvent(from gen.PID, token gen.Ref, options gen.MessageOp
 	lib.VerifPoint("event.consumers", from)
 	consumers := n.targetManager.GetConsumersForTarget(message.Event)
 	remote := make(map[gen.Atom]bool)
+	// a process that holds both a link and a monitor on this event
+	// is listed twice. deliver the message once
+	var delivered map[gen.PID]bool
+	if len(consumers) > 1 {
+		delivered = make(map[gen.PID]bool, len(consumers))
+	}
 	// local delivery
 	for _, pid := range consumers {
 		if pid.Node == n.name {
+			if delivered != nil {
+				if delivered[pid] {
+					continue
+				}
+				delivered[pid] = true
+			}
 			n.sendEventMessage(from, pid, options.Priority, message)
 			continue
 		}
